@@ -7,6 +7,7 @@ from vmon.checks.common import obs, fail, both_views, random_prefix, apply_prefi
 EXTREMES = "seq"   # worker re-labels every sixth case to the ends of the legal ranges (gen.extremify)
 RESTATE = "seq"    # worker adds a signature restating the one in force to every fifth case (gen.restate_signatures)
 SPLIT_WAITS = "seq"   # worker: every fifth case is built from relative messages with rests split into adjacent waits
+DEGEN = "seq"    # worker: every 37th case becomes a degenerate shape (gen.degenerate)
 SCALE = True   # worker: every fortieth case is blown up by scale_case below
 PROP = "C08"
 MONITORS = ["split"]
@@ -95,7 +96,21 @@ def make_case(rng, i, tier):
         mode = "handover"
     form = ["default", "copy_false", "default", "copy_true", "default", "copy_false_positional", "default", "rel_level", "copy_false",
             "rel_level_tuple"][(i // 2) % 10]
-    return {"seq": spec, "caps": caps, "stratum": stratum, "mode": mode, "prefix": prefix, "form": form}
+    case = {"seq": spec, "caps": caps, "stratum": stratum, "mode": mode, "prefix": prefix, "form": form}
+    if i % 13 == 9:
+        # the source is a motif concatenated with itself BY REFERENCE (Sequence.concatenate and Bar.to_sequence share the Message
+        # objects of their operands): the same WAIT / note objects occur two or three times in the list that split walks through;
+        # boundaries fall inside the first occurrence of the motif's rests
+        import random
+        r5 = random.Random(f"c08-motif:{i}")
+        ml = r5.choice([48, 60, 96])
+        a = r5.randrange(0, 12)
+        case["motif"] = {"spec": {"notes": [[0, 64, a, r5.choice([6, 12]), 80]], "extra": [], "pad": ml, "start": "rel"}, "times": r5.randint(2, 3),
+                         "onto_seq": r5.random() < 0.4}
+        case["caps"] = [r5.randrange(a + 13, ml)] + [r5.choice([7, 24, 30, ml]) for _ in range(r5.randint(0, 3))]
+        case["prefix"] = []
+        case["mode"] = "motif"
+    return case
 
 
 def classify(f, case):
@@ -120,6 +135,13 @@ def run(case, ctx):
     from vmon.monitors import LOG
     s = gen.build_seq(case["seq"])
     s = apply_prefix(s, case.get("prefix", []))
+    if case.get("motif"):
+        from scoda.sequences.sequence import Sequence
+        m0 = gen.build_seq(case["motif"]["spec"])
+        if not case["motif"]["onto_seq"]:
+            s = Sequence()
+        s.concatenate([m0] * case["motif"]["times"])
+        LOG.n("c08.motif_by_reference")
     before = obs(s)
     # call forms: default, explicit copy_messages=True / False (the pieces may then share Message objects with the source, but
     # the call itself must still leave the source as it was), positional, and the representation-level method
